@@ -184,3 +184,22 @@ Definition h_keydigest (X Y Zc : Z) : string :=
 Definition h_hexpt (x y : Z) : string :=
   let '(r, P) := point_from_bytes BigOps ltB KpB (Bj 0xa5 0xa5 0xa5) (B x) (B y) in
   if r =? 1 then "1 " ++ hj P ++ " 1" else dz r.
+
+(* ---------------- SM9 G1 / G2 point import: Spec predicate only ----------------
+   G1: y^2 = x^3 + 5 over F_p;  G2 (twist): y^2 = x^3 + 5u over F_p[u]/(u^2 + 2);
+   an F_p2 element a0 + a1 u travels as a1 || a0.  Accepted iff prefix 04, every coordinate
+   below p, and the curve equation holds; the answer repeats the coordinates. *)
+Definition sm9_pZ : Z := 0xb640000002a3a6f1d603ab4ff58ec74521f2934b1a7aeedbe56f9b27e351457d.
+Definition h_sm9g1 (prefix x y : Z) : string :=
+  if (prefix =? 4) && (x <? sm9_pZ) && (y <? sm9_pZ) && ((y * y) mod sm9_pZ =? (x * x * x + 5) mod sm9_pZ)
+  then "1 " ++ hx x ++ hx y else "-1".
+Definition fp2mul (a b : Z * Z) : Z * Z :=
+  ((fst a * fst b - 2 * (snd a * snd b)) mod sm9_pZ, (fst a * snd b + snd a * fst b) mod sm9_pZ).
+Definition h_sm9g2 (prefix xa1 xa0 ya1 ya0 : Z) : string :=
+  let X := (xa0, xa1) in let Y := (ya0, ya1) in
+  let l := fp2mul Y Y in
+  let r := fp2mul (fp2mul X X) X in
+  let r := (fst r, (snd r + 5) mod sm9_pZ) in
+  if (prefix =? 4) && (xa1 <? sm9_pZ) && (xa0 <? sm9_pZ) && (ya1 <? sm9_pZ) && (ya0 <? sm9_pZ) &&
+     (fst l =? fst r) && (snd l =? snd r)
+  then "1 " ++ hx xa1 ++ hx xa0 ++ hx ya1 ++ hx ya0 else "-1".
